@@ -6,10 +6,11 @@ sys.path.insert(0, os.path.join(V, "harness"))
 from checks import CHECKS, NOT_APPLICABLE
 
 props = [json.loads(l) for l in open(os.path.join(V, "properties.jsonl")) if l.strip()]
+READY = set(open(os.path.join(V, "harness", "ready.txt")).read().split())
 checks = []
 for p in props:
     cid = p["id"]
-    if cid not in CHECKS:
+    if cid not in CHECKS or cid not in READY:
         continue
     s = CHECKS[cid]
     checks.append({
@@ -23,7 +24,7 @@ for p in props:
         "level_note": s.get("level_note", "; ".join(s.get("assumptions", [])) or "harness oracle and generators are trusted"),
         "technique": s.get("technique", "property-based testing (pgregory.net/rapid) against a reference oracle"),
     })
-na = [{"property_id": p["id"], "reason": NOT_APPLICABLE.get(p["id"], "check not built yet (work in progress); see DESIGN.md")} for p in props if p["id"] not in CHECKS]
+na = [{"property_id": p["id"], "reason": NOT_APPLICABLE.get(p["id"], "check not built yet (work in progress); see DESIGN.md")} for p in props if p["id"] not in CHECKS or p["id"] not in READY]
 m = {
     "version": 1,
     "setup_cmd": "./check setup",
